@@ -1,7 +1,7 @@
 (* C09/Proofs.v — the property-level statements of C09/Props.v assembled from the Store lemmas,
    plus non-vacuity examples (concrete runs of the model in which each clause's hypotheses hold). *)
 From Coq Require Import List NArith ZArith Bool Lia.
-From BLB Require Import Gen.Consts Store.Bytes Store.MapProofs Store.Model Store.Proofs Store.WF Store.Conflict Store.Mono
+From BLB Require Import Gen.Consts Store.Bytes Store.BytesProofs Store.MapProofs Store.Model Store.Proofs Store.WF Store.Conflict Store.Mono
      Store.Steps Store.Monotone Store.Readd Store.FaultModel Store.Faults C09.Model.
 Import ListNotations.
 
@@ -212,6 +212,105 @@ Proof.
     exfalso. inversion H; subst re. destruct F as [F1 F2]. destruct Hok; contradiction.
 Qed.
 
+(* ---------- byte-level meaning of the observables ---------- *)
+Definition contents_canon (s : store) : Prop := forall pd t f, copy s pd t = Some f -> canon (f_data f).
+
+Lemma contents_canon_step : forall s o, wf s -> contents_canon s -> contents_canon (fst (step s o)).
+Proof.
+  intros s o W CC pd t f' H.
+  pose proof (copy_step_cases s o pd t W) as X. rewrite H in X.
+  destruct (cc_to_some _ _ _ _ _ _ X) as
+      [E|[(f & v & d & off & E & _ & _ & ->)|[(f & d & off & orc & E & _ & _ & ->)
+       |[(f & v & c & E & _ & _ & ->)|[(d & off & orc & _ & _ & _ & ->)
+       |(srcs & v & orc & re & data & _ & _ & _ & _ & ->)]]]]]; simpl.
+  - eapply CC; eauto.
+  - apply canon_write. eapply CC; eauto.
+  - apply canon_write. eapply CC; eauto.
+  - eapply CC; eauto.
+  - apply canon_write. exact I.
+  - apply canon_write. exact I.
+Qed.
+
+Lemma contents_canon_run : forall ops s, wf s -> contents_canon s -> contents_canon (run s ops).
+Proof.
+  induction ops as [|o ops IH]; intros s W C; simpl; [exact C|].
+  apply IH; [now apply wf_step|now apply contents_canon_step].
+Qed.
+
+Lemma reachable_canon : forall m ops, contents_canon (run (init m) ops).
+Proof.
+  intros. apply contents_canon_run; [apply wf_init|].
+  intros pd t f H. unfold copy, files_of in H. simpl in H. discriminate.
+Qed.
+
+Lemma cur_is_copy : forall s t f, cur s t = Some f -> exists pd, copy s pd t = Some f.
+Proof. intros s t f H. destruct (cur_some s t f H) as (_ & _ & pd & _ & _ & C). eauto. Qed.
+
+Lemma plain_write_nil_0 : forall b, plain_write [] b 0 = b.
+Proof. intros. unfold plain_write. simpl. rewrite skipn_nil. apply app_nil_r. Qed.
+
+Lemma bytes_lemma :
+  forall m ops t v f,
+    let s := run (init m) ops in
+    cur s t = Some f -> f_ver f = Some v ->
+    canon (f_data f) /\
+    (forall r, canon r -> expand r = expand (f_data f) -> r = f_data f) /\
+    (forall len off,
+        expand (snd (read s t v len off)) = plain_read (expand (f_data f)) (N.to_nat off) (N.to_nat len) /\
+        canon (snd (read s t v len off)) /\
+        (fst (read s t v len off) = E_OK <-> (len <= rle_len (f_data f) - off)%N) /\
+        (fst (read s t v len off) = E_OK \/ fst (read s t v len off) = E_EOF)) /\
+    (N.to_nat (snd (fst (stat s t v))) = length (expand (f_data f))) /\
+    (forall d off,
+        let s' := fst (do_write s t v d off) in
+        snd (do_write s t v d off) = E_OK /\
+        exists f', cur s' t = Some f' /\ f_ver f' = Some v /\ canon (f_data f') /\
+                   expand (f_data f') = plain_write (expand (f_data f)) (expand d) (N.to_nat off) /\
+                   rle_len (f_data f') = N.max (rle_len (f_data f)) (off + rle_len d) /\
+                   forall len off',
+                     expand (snd (read s' t v len off')) =
+                     plain_read (plain_write (expand (f_data f)) (expand d) (N.to_nat off))
+                                (N.to_nat off') (N.to_nat len)).
+Proof.
+  intros m ops t v f s Hc Hv.
+  destruct (cur_is_copy s t f Hc) as [pd Cp].
+  pose proof (reachable_canon m ops pd t f Cp) as CF. fold s in CF.
+  assert (CV : cur_ver s t = Some v) by (unfold cur_ver; now rewrite Hc).
+  split; [exact CF|]. split; [intros r Cr E; now apply canon_unique|]. split; [|split].
+  - intros len off. pose proof (read_fence s t v len off) as R.
+    destruct (read s t v len off) as [e b]. destruct R as (R1 & _ & R3). simpl.
+    destruct (R3 f Hc Hv) as [Eb Eok]. subst b.
+    split; [apply expand_read|]. split; [apply canon_read|]. split; [|tauto].
+    rewrite Eok, rle_len_read. lia.
+  - pose proof (stat_fence s t v) as S. destruct (stat s t v) as [[e sz] st]. destruct S as (_ & _ & S3).
+    simpl. rewrite (S3 f Hc Hv), length_expand. reflexivity.
+  - intros d off. pose proof (write_fence s t v d off) as Wf.
+    destruct (do_write s t v d off) as [s' e] eqn:DW. destruct Wf as (W1 & _ & W3). simpl.
+    split; [tauto|]. exists (mkfile (Some v) (rle_write (f_data f) d off)).
+    pose proof (W3 f Hc Hv) as Hc'. simpl.
+    split; [exact Hc'|]. split; [reflexivity|]. split; [now apply canon_write|].
+    split; [apply expand_write|]. split; [apply rle_len_write|].
+    intros len off'. pose proof (read_fence s' t v len off') as R.
+    destruct (read s' t v len off') as [e2 b2]. destruct R as (_ & _ & R3). simpl.
+    destruct (R3 _ Hc' eq_refl) as [Eb _]. subst b2. simpl. now rewrite expand_read, expand_write.
+Qed.
+
+Lemma install_bytes_lemma :
+  forall data d off,
+    expand (rle_write [] data 0) = expand data /\ canon (rle_write [] data 0) /\
+    rle_write [] data 0 = rle_norm data /\
+    expand (rle_write [] d off) = zeros_l (N.to_nat off) ++ expand d.
+Proof.
+  intros data d off. split; [|split; [|split]].
+  - rewrite expand_write. apply plain_write_nil_0.
+  - apply canon_write. exact I.
+  - apply canon_unique; [apply canon_write; exact I|apply canon_norm|].
+    rewrite expand_write, expand_norm. apply plain_write_nil_0.
+  - rewrite expand_write. unfold plain_write. simpl.
+    rewrite Nat.sub_0_r, firstn_all2 by (unfold zeros_l; rewrite repeat_length; lia).
+    rewrite skipn_all2 by (unfold zeros_l; rewrite repeat_length; lia). now rewrite app_nil_r.
+Qed.
+
 (* ---------- non-vacuity: concrete histories in which the clauses' hypotheses hold ---------- *)
 Open Scope N_scope.
 Definition d5 : rle := [(3, 5)].
@@ -319,4 +418,12 @@ Example ex_fault_pull :
   pull_tract s 0 [(st_NoSpace, []); (E_OK, d7)] 3%Z 1 /\
   cur (fst (pull_tract_f s 0 [(E_OK, d5); (E_OK, d7)] 3%Z 1 (Some st_NoSpace))) 0 = Some (mkfile (Some 3%Z) d7) /\
   cur (fst (pull_tract_f s 0 [(E_OK, d5)] 3%Z 1 (Some st_NoSpace))) 0 = None.
+Proof. vm_compute. auto. Qed.
+
+(* ---------- non-vacuity for the byte-level theorems ---------- *)
+Example ex_bytes :
+  expand (rle_write [(3, 5)] [(2, 7)] 5) = [5; 5; 5; 0; 0; 7; 7]%N /\
+  rle_write [(3, 5)] [(2, 7)] 5 = [(3, 5); (2, 0); (2, 7)]%N /\
+  expand (rle_read [(3, 5); (2, 0); (2, 7)] 2 4) = [5; 0; 0; 7]%N /\
+  plain_write [5; 5; 5]%N [7; 7]%N 5 = [5; 5; 5; 0; 0; 7; 7]%N.
 Proof. vm_compute. auto. Qed.
